@@ -11,7 +11,7 @@ META = {
             "payloads alone. TLC checks exhaustively on scaled constants, client and server side, that each DATA frame continues "
             "exactly at the cursor, never carries more than was written, END_STREAM sits on the frame that completes the final "
             "write, trailers come only after all data, nothing follows RST_STREAM / trailers / END_STREAM, and at every stable point "
-            "a finished stream with credit has its end marker on the wire (negative control: trailers written ahead of queued data). "
+            "a finished stream with credit has its end marker on the wire (negative controls: trailers written ahead of queued data; response headers written for a stream that is no longer established). The inputs include header / data / trailers items that reach the writer after the stream's cleanupStream or earlyAbortStream (items that lost a race in the control buffer). "
             "Every transition of real-size state graphs and seeded random histories of hundreds of items over up to six concurrent "
             "streams are executed on a real loopyWriter, decoded by an independent http2.Framer after every step, and validated by "
             "TLC. Clauses: C02_Order, C02_Excess, C02_FrameAfterEnd, C02_EndStreamEarly, C02_TrailersEarly, C02_EndMissing.",
